@@ -158,6 +158,63 @@ def zero(e):
 # ---------------------------------------------------------------------------
 
 
+def _r11t(rep):
+    """The projection weights of the projected DOS, evaluated symbolically on a small generic mesh."""
+    from engine import symnp
+
+    rep.rule("R11t", "projection weights of ProjectedDos.__init__ by symbolic evaluation (1 q-point, 2 atoms, 2 bands, generic complex eigenvector components, generic real direction u): with xyz_projection the weight of component k is |e_k|^2; per atom it is |e_x|^2 + |e_y|^2 + |e_z|^2; with a direction it is |(u/|u|) . e_atom|^2 -- a modulus squared, hence non-negative and never above the atom's weight (a cross term without the complex conjugate is not)", 3)
+    fn = core.find_method(DOS, "ProjectedDos", "__init__")
+    pn = [a.arg for a in fn.args.args]
+    for need in ("direction", "xyz_projection"):
+        if need not in pn:
+            raise AnalysisError(f"R11t: ProjectedDos.__init__ lost its parameter '{need}'")
+    NQ, NA, NB = 1, 2, 2
+    ev = [[[sp.Symbol(f"a{q}_{k}_{b}", real=True) + sp.I * sp.Symbol(f"b{q}_{k}_{b}", real=True) for b in range(NB)] for k in range(3 * NA)] for q in range(NQ)]
+    fr = [[sp.Symbol(f"f{q}_{k}", real=True) for k in range(3 * NA)] for q in range(NQ)]
+    u = [sp.Symbol(f"u{c}", real=True, nonzero=True) for c in range(3)]
+    # where the eigenvectors come from: the first statement that binds self._eigenvectors
+    src_ = [st for st in fn.body if isinstance(st, ast.Assign) and core.src(st.targets[0]) == "self._eigenvectors"]
+    if not src_:
+        raise AnalysisError("R11t: ProjectedDos.__init__ no longer binds self._eigenvectors")
+    start = fn.body.index(src_[0])
+    configs = [("components (xyz_projection)", sp.true, None), ("atoms", sp.false, None), ("atoms along a direction", sp.false, u)]
+    for label, xyz, direc in configs:
+        env = {core.src(src_[0].value): ev, "self._frequencies": fr, "xyz_projection": xyz, "direction": direc}
+        E = symnp.Evaluator(env, where="ProjectedDos.__init__")
+        E.generic = True
+        for st in fn.body[start:]:
+            try:
+                symnp.run_block(E, [st])
+            except AnalysisError:
+                tg = [core.src(t) for t in getattr(st, "targets", [])]
+                if isinstance(st, ast.Assign) and tg and all(t.startswith("self.") and t not in ("self._eigvecs2", "self._eigenvectors") for t in tg):
+                    continue
+                raise
+        got = E.env.get("self._eigvecs2")
+        if got is None:
+            raise AnalysisError(f"R11t: self._eigvecs2 is not assigned for {label}")
+        if direc is None and xyz is sp.true:
+            want = [[[sp.Abs(ev[q][k][b]) ** 2 for b in range(NB)] for k in range(3 * NA)] for q in range(NQ)]
+        elif direc is None:
+            want = [[[sum(sp.Abs(ev[q][3 * a + c][b]) ** 2 for c in range(3)) for b in range(NB)] for a in range(NA)] for q in range(NQ)]
+        else:
+            nrm = sp.sqrt(sum(x**2 for x in u))
+            want = [[[sp.Abs(sum(u[c] / nrm * ev[q][3 * a + c][b] for c in range(3))) ** 2 for b in range(NB)] for a in range(NA)] for q in range(NQ)]
+        ok = symnp.shape(got) == symnp.shape(want)
+        diff = None
+        if ok:
+            flat_g = [x for q_ in got for r_ in q_ for x in r_]
+            flat_w = [x for q_ in want for r_ in q_ for x in r_]
+            for g_, w_ in zip(flat_g, flat_w):
+                d_ = sp.simplify(sp.expand(sp.expand_complex(g_ - w_)))
+                if d_ != 0:
+                    ok, diff = False, d_
+                    break
+        gen = f" (generic point assumed for: {', '.join(sorted(set(getattr(E, 'generic_used', []))))})" if getattr(E, "generic_used", None) else ""
+        rep.instance("R11t", DOS, "ProjectedDos.__init__", f"weights for {label}: shape {symnp.shape(got)}{gen}", ok,
+                     (f"shape {symnp.shape(got)} instead of {symnp.shape(want)}" if diff is None else f"the weight differs from the modulus squared of the projected eigenvector component by {core.norm(str(diff), 140)}") + f": the projected DOS for {label} is not a sum of non-negative band weights that add up to the total DOS (with a direction the weight can become negative or exceed the atom's share)", line=fn.lineno)
+
+
 def run(rep: core.Report):
     rep.rule("R11a", "each of the 38 closed forms in c/tetrahedron_method.c equals the TetrahedronMethod method of the same name as a rational function", 38)
     rep.rule("R11b", "sum rules as identities: sum_c I_ic = 1, sum_c J_ic = 1, dn_i/dw = g_i, continuity of n, 24*J4*n4/6 = 1 (both languages)", 26)
@@ -171,6 +228,7 @@ def run(rep: core.Report):
     rep.rule("R11j", "small helpers by element-wise symbolic execution: the relative-grid-address getters copy every one of the 24x4x3 (x4) table entries to the same position, the matrix-vector product and the squared norm are the documented sums, the vertex frequencies of tetrahedron i are copied in order, each case adds IJ * gn (C and Python)", 8)
     rep.assume("vertex frequencies pairwise distinct (generic branch of _f); omega, v0..v3 real")
     _r11j(rep)
+    _r11t(rep)
 
     C = CSide()
     P = PySide()
@@ -1219,6 +1277,10 @@ def selftest():
     V = []
     b = lambda name, file, old, new, rule, expect="", **kw: V.append(dict(name=name, kind="break", file=file, old=old, new=new, rule=rule, expect=expect, **kw))
     n = lambda name, file, old, new, **kw: V.append(dict(name=name, kind="neutral", file=file, old=old, new=new, **kw))
+    b("direction weight from the square instead of the modulus squared", "phonopy/phonon/dos.py", "                self._eigvecs2 = np.abs(proj_eigvecs) ** 2", "                self._eigvecs2 = (proj_eigvecs * proj_eigvecs).real", "R11t", "direction")
+    n("direction weight as z times its conjugate", "phonopy/phonon/dos.py", "                self._eigvecs2 = np.abs(proj_eigvecs) ** 2", "                self._eigvecs2 = (proj_eigvecs * proj_eigvecs.conj()).real")
+    b("direction used without normalisation", "phonopy/phonon/dos.py", "                d /= np.linalg.norm(direction)\n", "", "R11t", "direction")
+    b("atom weight misses the z component", "phonopy/phonon/dos.py", "                self._eigvecs2 += np.abs(self._eigenvectors[:, i_z, :]) ** 2", "                self._eigvecs2 += np.abs(self._eigenvectors[:, i_y, :]) ** 2", "R11t", "atoms")
     b("projected tetrahedron DOS contracts the component axis", "phonopy/phonon/dos.py", "            self._projected_dos += np.dot(iw * w, self._eigvecs2[i].T).T", "            self._projected_dos += np.dot(iw * w, self._eigvecs2[i]).T", "R11r", "_run_tetrahedron_method")
     b("projected smearing DOS selects the band axis", "phonopy/phonon/dos.py", "                    weights, self._eigvecs2[:, j, :] * amplitudes", "                    weights, self._eigvecs2[:, :, j] * amplitudes", "R11r", "_run_smearing_method")
     b("C _J_11 uses the wrong vertex pair", CF, "static double _J_11(const double omega, const double vertices_omegas[4]) {\n    return _f(1, 0, omega, vertices_omegas) / 4;", "static double _J_11(const double omega, const double vertices_omegas[4]) {\n    return _f(0, 1, omega, vertices_omegas) / 4;", "R11a", "_J_11")
